@@ -427,6 +427,10 @@ pub struct DestPlan {
     pub origin: u64,
     /// (op index among all destination calls of this dump, effect)
     pub fx: Vec<(u32, DestFx)>,
+    /// a destination that takes at most this many bytes of any write of 12 or 8 bytes (a block-oriented
+    /// destination at a block boundary: the writes that publish a directory entry); 0 = off
+    #[serde(default)]
+    pub short_entry: u64,
 }
 
 #[derive(Serialize, Deserialize, Clone, Debug, Default)]
